@@ -17,7 +17,7 @@ mcAdvS ==
            AAlt(0, "o", "f"), AAlt(1, "", "f"), AUnknown(1),
            AH(1, "req_get", FALSE), AHP(1, "req_get", TRUE, <<256, 0, FALSE>>), AHP(3, "req_get", FALSE, <<1, 3, FALSE>>),
            AHP(3, "req_nopath", FALSE, <<1, 1, FALSE>>)})
-  \cup {<<APing("A", FALSE), APing("Z", FALSE)>>}
+  \cup {<<APing("A", FALSE), APing("Z", FALSE)>>, <<APing("A", FALSE), APing("A", FALSE)>>}
 mcSetup == Handshake("s", <<>>)
 mcQSids == <<1, 3>>
 mcCfgC == DefaultCfg
